@@ -33,13 +33,29 @@ EXPLANATION += (' R-C12-4 additionally requires both aggregation paths (with and
 EXPLANATION += (' R-C12-6: a local helper whose result is NaN-patched (.fillna) at one call site is patched or guarded by an explicit infinity test of its argument at every call site (belief-contradiction rule for the indeterminate form (1+R)/(1-R) at R = +-inf).')
 EXPLANATION += (" R-C12-4 evaluates the membership mask of the re-binning helper (after inlining its locals) as a boolean function of the position of a range relative to the class edges, for &, |, ~, operator/np comparison functions and comparison expressions; an approximate comparison (np.isclose ...) in the mask is a violation. R-C12-7: no numeric parameter (M, M2, R_goal, amplitude, meanstress ...) of a mean-stress function is used as a truth value - 0 is admissible for each of them.")
 EXPLANATION += (' R-C12-8: whatever the histogram accessor combines by position with the rows of the caller\'s matrix (A.iloc[mask(B.values)], traced through nested helpers and common row selections) is aligned with the index of the matrix first (B = B.reindex(self._obj.index)); the transformed classes come back in the row order of the broadcast.')
+EXPLANATION += (' R-C12-9: class-level caches of the mean stress module are keyed by everything the cached object is built from (parameter-rooted access paths of value and key compared), and no accessor memoises across calls (memo rule).')
 ASSUMPTIONS = ["pandas IntervalIndex.get_indexer_for maps interval values to their positions",
                "1 - R_goal + M (1 + R_goal) != 0 for admissible slopes"]
 
 
 def run(ctx):
-    for r in (_r1, _r2, _r3, _r4, _r5, _r6, _r7, _r8):
+    for r in (_r1, _r2, _r3, _r4, _r5, _r6, _r7, _r8, _r9):
         ctx.attempt(r)
+
+
+def _r9(ctx):
+    """R-C12-9: the transformation of a cycle depends on the diagram parameters and the target only - nothing is remembered from
+    an earlier call.  A diagram / transformer cached at class level is keyed by everything it was built from (memo rule and
+    keyed-cache rule of sa/memo.py: a cache of FKM-Goodman diagrams keyed by M alone hands the diagram of another M2 to the next
+    caller), and no accessor keeps a memo attribute or caching decorator."""
+    from .. import memo
+    prog = ctx.prog
+    ctx.rule("R-C12-9", floor=1, what="diagrams / transformers cached across calls are keyed by everything they are built from")
+    classes = [ci for k, ci in sorted(prog.classes.items()) if k.startswith(MS + ":")]
+    if len(classes) < 4:
+        raise AnalysisError("classes of the mean stress module not found")
+    memo.check_keyed_caches(ctx, prog, classes)
+    memo.run_rule(ctx, classes=classes)
 
 
 def positional_pairings(fn_node):
@@ -324,6 +340,30 @@ def _r5(ctx):
                 sorts.append((fi_, c_))
     if not sorts:
         raise AnalysisError("_SegmentTransformer: no sort of the distances found")
+    # the walks depend on the diagram and the target only: which segments lie left / right of the target is a property of the
+    # Haigh diagram, not of the cycles that happen to be in the collective (R > 1 is numerically large but lies on the far left)
+    init_ = prog.lookup_method(stc, "__init__")
+    cyc_attrs = set()
+    if init_ is not None and len(init_.params) > 1:
+        first = init_.params[1]
+        derived = {first}
+        for st in walk_function(init_.node):
+            if isinstance(st, ast.Assign) and any(isinstance(x, ast.Name) and x.id in derived for x in ast.walk(st.value)):
+                for t in st.targets:
+                    if isinstance(t, ast.Name):
+                        derived.add(t.id)
+                    elif is_self_attr(t):
+                        cyc_attrs.add(t.attr)
+    if not cyc_attrs:
+        raise AnalysisError("_SegmentTransformer.__init__: the attribute holding the cycles was not found")
+    for fi_ in sorted({f_.key: f_ for f_, _ in sorts}.values(), key=lambda f_: f_.name):
+        reads = [x for x in ast.walk(fi_.node) if is_self_attr(x) and x.attr in cyc_attrs]
+        if reads:
+            ctx.violated(fi_, reads[0], "%s selects the segments to walk through from the cycles themselves (self.%s): the same "
+                         "cycle is then transformed differently depending on which other cycles the collective contains" %
+                         (fi_.name, reads[0].attr), text="walk depends on cycles " + fi_.name)
+        else:
+            ctx.holds(fi_, fi_.node, "%s depends on the diagram and the target only" % fi_.name)
     for fi_, c_ in sorts:
         if any(k.arg == "kind" and const_value(k.value) in ("stable", "mergesort") for k in c_.keywords):
             ctx.holds(fi_, c_, "%s sorts the distances with a stable sort" % fi_.name)
